@@ -12,11 +12,12 @@ shared dump does); the theorems hold for every `P : Prog` with those functions (
 any dispatch table `impls`: the fragment never consults it).
 
 * **T1 `compile_preserves`** — forward simulation: for every function of a set `G` of functions of
-  the file that passes the decidable check `closedOK` (`Model/GoFrag.lean`: stage (a) — scalars,
-  operators, `let`, `if`, `while`, calls inside `G`, printing / `*_to_string` builtins; Go names
-  pairwise distinct), every definite `Sem.apply` run (a value or a panic, with its stdout and extern
+  the file that passes the decidable check `closedOK` (`Model/GoFrag.lean`: scalars and struct values (user structs, closure
+  environments), operators, struct construction / field access, `let`, `if`, `while`, calls inside
+  `G`, printing / `*_to_string` builtins; Go names pairwise distinct), every definite `Sem.apply` run (a value or a panic, with its stdout and extern
   events) is reproduced by `callG` of the compiled function in the emitted file for some fuel, with
-  the corresponding value (`toG`) and the same observable world.  `compile_preserves_fragment` is
+  the corresponding value (`toGV`: `C01.toG` on scalars, struct values field by field) and the same
+  observable world.  `compile_preserves_fragment` is
   the instance for `inGoFragment`; `compile_preserves_run` the whole-program form
   (`runGo m F = Sem.run fuel P`).
 * **T3 `compile_order`** — the statements of `let x = v in body` are those of `v` followed by those
@@ -28,8 +29,8 @@ any dispatch table `impls`: the fragment never consults it).
   elimination it still does and no local is left unused.  The typing part of `Go.check` is not proved
   (`Go.Sem` is untyped; typing stays `./check C02`'s oracle on the real output).
 
-What is missing for the full property (C01 for the back end): the fragment (tuples, structs,
-enums / `switch`, `Ref`, arrays, `Vec`, closures, `dyn`, `go`, floats are outside — those
+What is missing for the full property (C01 for the back end): the fragment (tuples,
+enums / `switch`, `Ref`, arrays, `Vec`, closures as values, `dyn`, `go`, floats are outside — those
 functions stay decided by the per-program oracles), divergence (forward simulation of definite
 runs only), and the composition with `eliminate_dead_vars` for a whole file (`dce_preserves` is
 per block, callees not DCE'd at the same time).
@@ -60,11 +61,11 @@ theorem tables_are_modelled :
     parameter types, `w` / `gw` worlds with the same stdout and extern events. -/
 theorem compile_preserves (env : Env) (file : AFile) (n0 : Nat) (G : List String)
     (hG : closedOK env file n0 G = true) (P : Prog) (hP : P.fns = file.map AFn.toFn) (f : AFn) (hf : f ∈ file) (hfG : f.name ∈ G)
-    (args : List Val) (gargs : List GVal) (hargs : ArgsRel args gargs (f.params.map (·.2)))
+    (args : List Val) (gargs : List GVal) (hargs : ArgsRel env args gargs (f.params.map (·.2)))
     (w : World) (gw : GWorld) (hw : WRel w gw) (fuel : Nat) :
     match Sem.apply fuel P w (.fn f.name) args with
     | .ok v w' => ∃ m gv gw', callG m (goFilePreSt env file n0).1 gw (.func (fnName f.name)) gargs = .ok gv gw' ∧
-        toG v = some gv ∧ WRel w' gw'
+        toGV env v = some gv ∧ WRel w' gw'
     | .fail (.panic k) w' => ∃ m gw', callG m (goFilePreSt env file n0).1 gw (.func (fnName f.name)) gargs =
         .fail (.panic k) gw' ∧ WRel w' gw'
     | _ => True := by
@@ -93,11 +94,11 @@ instance (env : Env) (file : AFile) (n0 : Nat) (f : AFn) : Decidable (InGoFragme
 /-- **T1 for `InGoFragment`** (`G` = the set `goodFns` computes, its closure re-checked) -/
 theorem compile_preserves_fragment (env : Env) (file : AFile) (n0 : Nat) (f : AFn) (hf : f ∈ file)
     (hfrag : InGoFragment env file n0 f) (P : Prog) (hP : P.fns = file.map AFn.toFn)
-    (args : List Val) (gargs : List GVal) (hargs : ArgsRel args gargs (f.params.map (·.2)))
+    (args : List Val) (gargs : List GVal) (hargs : ArgsRel env args gargs (f.params.map (·.2)))
     (w : World) (gw : GWorld) (hw : WRel w gw) (fuel : Nat) :
     match Sem.apply fuel P w (.fn f.name) args with
     | .ok v w' => ∃ m gv gw', callG m (goFilePreSt env file n0).1 gw (.func (fnName f.name)) gargs = .ok gv gw' ∧
-        toG v = some gv ∧ WRel w' gw'
+        toGV env v = some gv ∧ WRel w' gw'
     | .fail (.panic k) w' => ∃ m gw', callG m (goFilePreSt env file n0).1 gw (.func (fnName f.name)) gargs =
         .fail (.panic k) gw' ∧ WRel w' gw'
     | _ => True := by
@@ -120,7 +121,7 @@ theorem compile_preserves_run (env : Env) (file : AFile) (n0 : Nat) (G : List St
     rw [funcs_goFilePre]; simp
   have hnd : ((goFilePreSt env file n0).1.funcs.map (·.name)).Nodup := by
     simp only [closedOK, fileOK, Bool.and_eq_true] at hG
-    exact of_decide_eq_true hG.1.1.1.1
+    exact of_decide_eq_true hG.1.1.1.1.1.1
   have hmainFind : (goFilePreSt env file n0).1.findFunc "main" = some mainFn := by
     have := find?_of_nodup (fun g : GFunc => g.name) _ hnd _ hmainMem
     simpa [GFile.findFunc, mainFn] using this
@@ -174,7 +175,7 @@ theorem compile_preserves_run (env : Env) (file : AFile) (n0 : Nat) (G : List St
 structure Ready (env : Env) (file : AFile) (G : List String) (Bad : List String) (m : Mode) (st : St) (e : AExpr)
     (Γ : Ctx) (ρ : Sem.Env) (w : World) (gρ : GEnv) (gw : GWorld) : Prop where
   frag : fragA env file G Γ e = true
-  envs : EnvRel Γ ρ gρ
+  envs : EnvRel env Γ ρ gρ
   worlds : WRel w gw
   names : GInv Bad (compileA env m st e).1 gρ
   target : TgtOK m Γ gρ (aTy e)
@@ -187,7 +188,7 @@ structure Ready (env : Env) (file : AFile) (G : List String) (Bad : List String)
 theorem compile_stmts_preserve (env : Env) (file : AFile) (n0 : Nat) (G : List String)
     (hG : closedOK env file n0 G = true) (P : Prog) (hP : P.fns = file.map AFn.toFn) (Bad : List String) (m : Mode) (st : St) (e : AExpr) (Γ : Ctx) (ρ : Sem.Env)
     (w : World) (gρ : GEnv) (gw : GWorld) (h : Ready env file G Bad m st e Γ ρ w gρ gw) (fuel : Nat) :
-    Concl (goFilePreSt env file n0).1 (compileA env m st e).1 m gρ gw (aTy e)
+    Concl env (goFilePreSt env file n0).1 (compileA env m st e).1 m gρ gw (aTy e)
       (Sem.eval fuel P ρ w e.toExpr) :=
   (sim_all (link_of_closed hG hP) fuel).a m st e Γ ρ w gρ gw Bad h.frag h.envs h.worlds h.names h.target h.blank h.callees
 
@@ -206,7 +207,7 @@ theorem compile_order (env : Env) (file : AFile) (n0 : Nat) (G : List String)
     (match Sem.eval fuel P ρ w v.toExpr with
      | .ok vv w1 => ∃ env1 gv gw1,
          BlockS (goFilePreSt env file n0).1 gρ gw (letPrefix env st x v) (.ok (env1, .normal) gw1) ∧ WRel w1 gw1 ∧
-         lookupG env1 (vn x) = some gv ∧ toG vv = some gv
+         lookupG env1 (vn x) = some gv ∧ toGV env vv = some gv
      | .fail (.panic k) w1 => ∀ rest, ∃ gw1,
          BlockS (goFilePreSt env file n0).1 gρ gw (letPrefix env st x v ++ rest) (.fail (.panic k) gw1) ∧ WRel w1 gw1
      | _ => True) :=
@@ -270,6 +271,22 @@ example : InGoFragment {} exFile 0 exMain ∧ InGoFragment {} exFile 0 exAdd := 
 example : closedOK {} exFile 0 (goodFns {} exFile 0) = true ∧ "main" ∈ goodFns {} exFile 0 ∧
     (Sem.run 200 (progOf exFile)).status = "ok" ∧ (Sem.run 200 (progOf exFile)).out = "3big\n" := by
   decide +kernel
+
+/-- struct values are inside: `struct P { x: int32, y: int32 }`, `fn sum(p) { p.x + p.y }`,
+    `fn mk(a) { P { x: a, y: a } }` with the emitted file declaring `P` with exactly these fields -/
+private def envP : Env :=
+  { structs := [{ name := "P", generics := [], fields := [("x", t32), ("y", t32)] }],
+    structsLookup := [{ name := "P", generics := [], fields := [("x", t32), ("y", t32)] }] }
+private def exSum : AFn :=
+  { name := "sum", params := [("p/0", .struct "P")], ret := t32,
+    body := .letE "t1" (.cget (.var "p/0" (.struct "P")) (.struct "P") 0 t32)
+      (.letE "t2" (.cget (.var "p/0" (.struct "P")) (.struct "P") 1 t32)
+      (.ret (.bin .add (.var "t1" t32) (.var "t2" t32) t32)) t32) t32 }
+private def exMk : AFn :=
+  { name := "mk", params := [("a/0", t32)], ret := .struct "P",
+    body := .ret (.constr (.struct "P") [.var "a/0" t32, .var "a/0" t32] (.struct "P")) }
+example : InGoFragment envP [exSum, exMk] 0 exSum ∧ InGoFragment envP [exSum, exMk] 0 exMk := by
+  constructor <;> (unfold InGoFragment; decide +kernel)
 
 /-- a function that builds a tuple is outside the fragment (the model still compiles it: the tie
     covers it, the theorem does not) -/
